@@ -114,6 +114,15 @@ func runWorker(p *load.Program, loadS float64, harness string, bounds map[string
 		}()
 		ex.Run()
 	}()
+	// schedule counterexamples: concrete re-execution of the real SSA under the
+	// model's inputs and the recorded schedule (see DESIGN 10.3)
+	if bounds["sched_replay"] == 1 {
+		for _, v := range ex.Violations {
+			if confirmConcrete(p, fn, cfg, solverKind, timeoutMs, v) {
+				v.Confirmed = "engine-concrete-replay"
+			}
+		}
+	}
 	c := ex.C
 	res.Paths, res.PathsDone, res.PathsInfeas = c.Paths, c.PathsDone, c.PathsInfeas
 	res.Instrs = c.Instrs
@@ -163,4 +172,34 @@ func writeJSON(path string, v any) error {
 		return err
 	}
 	return os.WriteFile(path, data, 0644)
+}
+
+// confirmConcrete re-executes the harness with the counterexample's concrete
+// inputs and scheduler choices; the same assertion must fail.
+func confirmConcrete(p *load.Program, fn *ssa.Function, cfg exec.Config, solverKind string, timeoutMs int, v *exec.Violation) bool {
+	s, err := smt.New(solverKind, timeoutMs)
+	if err != nil {
+		return false
+	}
+	defer s.Close()
+	c2 := cfg
+	c2.Concrete = map[string]uint64{}
+	for _, in := range v.Inputs {
+		c2.Concrete[in.Name] = in.Value
+	}
+	c2.Choices = v.Choices
+	c2.WantWitness = false
+	c2.Known = nil
+	ex := exec.NewExec(p.Prog, s, fn, c2)
+	ok := false
+	func() {
+		defer func() { recover() }()
+		ex.RunConcrete()
+	}()
+	for _, w := range ex.Violations {
+		if w.Label == v.Label && w.Kind == v.Kind {
+			ok = true
+		}
+	}
+	return ok
 }
